@@ -204,20 +204,36 @@ def run_executor(cmd, lines, timeout=900, env=None, chunk=4000, label="executor"
     return res
 
 
+_CRASHES = {"n": 0}
+CRASH_LIMIT = 40      # per check process: beyond this the remaining cases of a crashing executor are not run one by one
+
+
 def _run_part(cmd, part, timeout, env, label):
     """Answers are flushed line by line, so after a crash the answers received so far stand, the next line is the one
-    that crashed (confirmed by running it alone), and the rest is fed to a fresh process: one process per crash."""
+    that crashed (confirmed by running it alone), and the rest is fed to a fresh process: one process per crash. A tree on
+    which the code under test crashes or hangs on hundreds of cases is reported from the first few dozen (each is a violation
+    by itself); the rest are answered `CRASH skipped`."""
     res = []
     while part:
+        if _CRASHES["n"] >= CRASH_LIMIT:
+            return res + [f"CRASH skipped: more than {CRASH_LIMIT} cases crashed or hung in this run"] * len(part)
         try:
             rc, out, err = _run_lines(cmd, part, timeout, env)
         except subprocess.TimeoutExpired:
             rc, out, err = -9, [], "timeout"
         if len(out) == len(part) and (rc == 0 or out[-1].startswith("CRASH timeout")):
+            if rc != 0:
+                _CRASHES["n"] += 1
             return res + out
+        _CRASHES["n"] += 1
         if len(part) == 1:
             reason = (err or "").strip().split("\n")[0][:200] if err else f"exit {rc}"
             return res + [f"CRASH {label}: {reason}"]
+        if out and out[-1].startswith("CRASH timeout"):
+            # the hanging case has been answered; go on with what follows it
+            res += out
+            part = part[len(out):]
+            continue
         k = min(len(out), len(part) - 1)
         res += out[:k] + _run_part(cmd, [part[k]], timeout, env, label)
         part = part[k + 1:]
